@@ -248,7 +248,7 @@ def build(case, work, name="plt00010"):
     if case.get("zero_fine"):
         gen.zero_fine(m, case["gen"]["seed"])
     if case.get("ratio4") and m.nlevels >= 2:      # the finest level refined by 4 (ratio line `2 4`): C19 only
-        gen.refine_top(m, case["gen"]["seed"])
+        gen.refine_top(m, case["gen"]["seed"], from_level=1 if case["ratio4"] == "coarse" else None)
     if case.get("zero_last"):      # the last field is exactly +0.0 everywhere (an absent species): every FAB ends in NUL bytes
         for lv in range(m.nlevels):
             for bi in range(len(m.data[lv])):
